@@ -144,7 +144,10 @@ func (m *dsim) violate(oracle, site, format string, args ...any) {
 	m.s.Violate(oracle, "C08|"+oracle+"|"+site, "%s", msg)
 }
 
-var oddDirs = []string{"", "pkg", "pkg/v1", ".hidden", "pkg/.internal", "..dots", "back\\slash", "with space", "ünï/cødé", "a.b/c-d_e", "two  spaces", " lead", "trail ", "tab\there", "shake256:ab  x"}
+var oddDirs = []string{"", "pkg", "pkg/v1", ".hidden", "pkg/.internal", "..dots", "back\\slash", "with space", "ünï/cødé", "a.b/c-d_e", "two  spaces", " lead", "trail ", "tab\there", "shake256:ab  x",
+	// one name in two Unicode normal forms (precomposed, and base letter + combining mark) and conjoining
+	// Hangul jamo: different byte strings are different paths, whatever a file system or archiver thinks
+	"\u00e9tude", "e\u0301tude", "\u1100\u1161"}
 
 func (m *dsim) drawModules() {
 	n := 1 + m.tp.Draw("d.nmods", 3)
@@ -639,6 +642,11 @@ func Run(tp *tape.Tape, env *engine.Env) *engine.Outcome {
 		m.remotePinnedDeps()
 	}
 
+	// a remote module without declared dependencies that imports a well-known type some module of the set vendors
+	if tp.Draw("remoteleaf", 4) == 3 {
+		m.remoteLeafImportingVendoredWKT()
+	}
+
 	// the same module objects asked by several goroutines at once
 	if tp.Draw("concurrent", 2) == 1 {
 		m.concurrentDigests(ref)
@@ -974,6 +982,102 @@ func (m *dsim) remotePinnedDeps() {
 		}
 		m.s.Probe("remote-module-with-pinned-dependency")
 	}
+}
+
+// remoteLeafImportingVendoredWKT: well-known-type imports need not be declared as dependencies, so a
+// remote module GEO whose commit declares none may still import google/protobuf/timestamp.proto. When a
+// module W of the set vendors that file, GEO depends on W inside this set, and so does - transitively -
+// the local module APP that imports GEO only. APP's digest is its files' digest plus the digests of GEO
+// and W; it changes when W's content changes.
+func (m *dsim) remoteLeafImportingVendoredWKT() {
+	ctx := context.Background()
+	commit := func(tag byte) uuid.UUID {
+		var id uuid.UUID
+		copy(id[:], m.tp.Bytes("rl.commit", 16))
+		id[15] = tag
+		id[6] = (id[6] & 0x0f) | 0x40
+		id[8] = (id[8] & 0x3f) | 0x80
+		return id
+	}
+	cg, cw := commit(1), commit(2)
+	filesGeo := map[string][]byte{"geo/geo.proto": []byte(fmt.Sprintf("syntax = \"proto3\";\npackage geo;\nimport \"google/protobuf/timestamp.proto\";\n// %d\nmessage Point { google.protobuf.Timestamp at = 1; }\n", m.tp.Draw("d.nonce", 1000)))}
+	filesApp := map[string][]byte{"app/app.proto": []byte("syntax = \"proto3\";\npackage app;\nimport \"geo/geo.proto\";\nmessage App { geo.Point p = 1; }\n")}
+	wkt := func(nonce int) map[string][]byte {
+		return map[string][]byte{"google/protobuf/timestamp.proto": []byte(fmt.Sprintf("syntax = \"proto3\";\npackage google.protobuf;\n// vendored %d\nmessage Timestamp { int64 seconds = 1; int32 nanos = 2; }\n", nonce))}
+	}
+	nonce := m.tp.Draw("d.nonce", 1000)
+	wRemote := m.tp.Draw("rl.wremote", 2) == 1
+	digestOfApp := func(filesW map[string][]byte) (string, bool) {
+		pg, err := bufmoduletesting.NewOmniProvider(bufmoduletesting.ModuleData{Name: "buf.build/acme/geo", CommitID: cg, PathToData: filesGeo})
+		if err != nil {
+			panic(err)
+		}
+		pw, err := bufmoduletesting.NewOmniProvider(bufmoduletesting.ModuleData{Name: "buf.build/acme/wkt", CommitID: cw, PathToData: filesW})
+		if err != nil {
+			panic(err)
+		}
+		registry := byCommit{cg: pg, cw: pw}
+		keyOf := func(p bufmoduletesting.OmniProvider, name string) bufmodule.ModuleKey {
+			fn, err := bufparse.ParseFullName(name)
+			if err != nil {
+				panic(err)
+			}
+			ref, err := bufparse.NewRef(fn.Registry(), fn.Owner(), fn.Name(), "")
+			if err != nil {
+				panic(err)
+			}
+			keys, err := p.GetModuleKeysForModuleRefs(ctx, []bufparse.Ref{ref}, bufmodule.DigestTypeB5)
+			if err != nil {
+				panic(err)
+			}
+			return keys[0]
+		}
+		builder := bufmodule.NewModuleSetBuilder(ctx, slogext.NopLogger, registry, registry)
+		app, err := storagemem.NewReadBucket(filesApp)
+		if err != nil {
+			panic(err)
+		}
+		builder.AddLocalModule(app, "app", true)
+		builder.AddRemoteModule(keyOf(pg, "buf.build/acme/geo"), false)
+		if wRemote {
+			builder.AddRemoteModule(keyOf(pw, "buf.build/acme/wkt"), false)
+		} else {
+			w, err := storagemem.NewReadBucket(filesW)
+			if err != nil {
+				panic(err)
+			}
+			builder.AddLocalModule(w, "wkt", false)
+		}
+		moduleSet, err := builder.Build()
+		if err != nil {
+			m.violate("digest-computable", "remote-leaf", "module set cannot be built: %v", err)
+			return "", false
+		}
+		for _, mod := range moduleSet.Modules() {
+			if mod.BucketID() != "app" {
+				continue
+			}
+			got, err := mod.Digest(bufmodule.DigestTypeB5)
+			if err != nil {
+				m.violate("digest-computable", "remote-leaf", "digest of the local module failed: %v", err)
+				return "", false
+			}
+			return got.String(), true
+		}
+		m.violate("digest-computable", "remote-leaf", "the local module is not in the module set")
+		return "", false
+	}
+	for round, filesW := range []map[string][]byte{wkt(nonce), wkt(nonce + 1000)} {
+		got, ok := digestOfApp(filesW)
+		if !ok {
+			return
+		}
+		want := refB5(filesApp, []string{refB5(filesGeo, nil), refB5(filesW, nil)})
+		if got != want {
+			m.violate("digest-equals-published-construction", "remote-leaf", "local module importing a remote module (no declared dependencies) that imports a well-known type vendored by a third module (remote: %v, content version %d): digest %s, reference over its files and the digests of both modules it depends on is %s", wRemote, round, got, want)
+		}
+	}
+	m.s.Probe("remote-leaf-importing-vendored-wkt")
 }
 
 // concurrentDigests: several goroutines ask the same module objects for their digests and
